@@ -996,6 +996,114 @@ async def s_control_session() -> List[str]:
     return viol
 
 
+async def s_control_two_sessions() -> List[str]:
+    """two sessions on the same pool class with the same terminal width, overlapping in time and interleaved line by line:
+    every reply goes to the session that sent the line and equals what a lone session gets (C16, C18: "each reply contains
+    only the output of its own command"); a third session connects after the first has gone"""
+    import contextlib
+    import io
+    import json as _json
+    from unittest.mock import MagicMock
+
+    from asyncio_taskpool.control.session import ControlSession
+
+    from replay.dummy_pool import Dummy
+
+    viol: List[str] = []
+
+    class Conn:
+        def __init__(self, pool, name):
+            self.name, self.inq, self.sent = name, asyncio.Queue(), []
+            reader = MagicMock(readline=self.inq.get)
+
+            async def drain():
+                return None
+
+            writer = MagicMock(write=self.sent.append, drain=drain)
+            server = MagicMock(pool=pool, client_class_name=name, is_serving=lambda: True)
+            self.session = ControlSession(server, reader, writer)
+            self.task = None
+
+        async def run(self):
+            await self.session.client_handshake()
+            await self.session.listen()
+
+        async def start(self, width=80):
+            self.task = asyncio.ensure_future(self.run())
+            await self.send_raw(_json.dumps({"terminal_width": width}).encode() + b"\n")
+
+        async def send_raw(self, data):
+            n = len(self.sent)
+            await self.inq.put(data)
+            for _ in range(200):
+                await asyncio.sleep(0)
+                if len(self.sent) > n or self.task.done():
+                    break
+            return self.sent[n].decode() if len(self.sent) > n else None
+
+        async def send(self, line):
+            return await self.send_raw(line.encode() + b"\n")
+
+        async def close(self):
+            await self.inq.put(b"")
+            for _ in range(50):
+                await asyncio.sleep(0)
+
+    script = [("A", "add -h"), ("B", "add 1"), ("A", "add"), ("B", "add x"), ("A", "-h"), ("B", "nope"), ("A", "limit x"), ("B", "limit"), ("A", "clamp -h"), ("B", "add 1 -b 5"),
+              ("A", "nothing"), ("B", "many 1 2 --sep")]
+    out, err = io.StringIO(), io.StringIO()
+    with contextlib.redirect_stdout(out), contextlib.redirect_stderr(err):
+        # reference: each line answered by a lone session on a fresh pool
+        expected = {}
+        for who in ("A", "B"):
+            solo = Conn(Dummy(), "solo" + who)
+            await solo.start()
+            expected[who] = [await solo.send(line) for w, line in script if w == who]
+            await solo.close()
+        pool = Dummy()
+        conns = {"A": Conn(pool, "A"), "B": Conn(pool, "B")}
+        await conns["A"].start()
+        await conns["B"].start()
+        got = {"A": [], "B": []}
+        for who, line in script:
+            before_other = len(conns["B" if who == "A" else "A"].sent)
+            rep = await conns[who].send(line)
+            got[who].append(rep)
+            if len(conns["B" if who == "A" else "A"].sent) != before_other:
+                viol.append(f"line {line!r} of session {who} produced output in the other session")
+        for who in ("A", "B"):
+            lines = [line for w, line in script if w == who]
+            for line, rep, exp in zip(lines, got[who], expected[who]):
+                if rep is None:
+                    viol.append(f"session {who}: no reply to {line!r}")
+                elif not rep.strip():
+                    viol.append(f"session {who}: empty reply to {line!r} (a lone session answers {exp[:50]!r})")
+                elif exp is not None and rep != exp and not line.startswith(("add 1", "limit")):
+                    viol.append(f"session {who}: reply to {line!r} is {rep[:50]!r}, a lone session answers {exp[:50]!r}")
+        # a later session after A has gone
+        await conns["A"].close()
+        c = Conn(pool, "C")
+        await c.start()
+        for line in ("add -h", "add", "limit x"):
+            rep = await c.send(line)
+            if rep is None or not rep.strip():
+                viol.append(f"later session C: {'no' if rep is None else 'empty'} reply to {line!r}")
+        for k in ("B",):
+            n = len(conns[k].sent)
+            await asyncio.sleep(0)
+            if len(conns[k].sent) != n:
+                viol.append("output of session C appeared in session B")
+        for x in list(conns.values()) + [c]:
+            if x.task is not None and not x.task.done():
+                x.task.cancel()
+        for x in list(conns.values()) + [c]:
+            if x.task is not None and x.task.done() and not x.task.cancelled() and x.task.exception() is not None:
+                viol.append(f"session {x.name} crashed: {type(x.task.exception()).__name__}: {x.task.exception()}")
+    if out.getvalue() or err.getvalue():
+        viol.append(f"a session printed on stdout/stderr: {(out.getvalue() + err.getvalue())[:100]!r}")
+    return viol
+
+
 SCENARIOS: Dict[str, Callable] = {
     "lifecycle_mix": s_lifecycle_mix,
     "exception_in_body_map": s_exception_in_body_map,
@@ -1009,6 +1117,7 @@ SCENARIOS: Dict[str, Callable] = {
     "lock_while_spawner_waits": s_lock_while_spawner_waits,
     "queue": s_queue,
     "control_session": s_control_session,
+    "control_two_sessions": s_control_two_sessions,
     "cancelled_flush": s_cancelled_flush,
     "double_cancel_turns": s_double_cancel_turns,
     "flush_with_cancelled_meta": s_flush_with_cancelled_meta,
@@ -1032,9 +1141,9 @@ BY_PROPERTY = {
     "C14": ["stop_lifo"],
     "C15": ["lock_while_spawner_waits", "pool_size_assign", "blocked_spawners"],
     "C20": ["queue"],
-    "C16": ["control_session"],
-    "C17": ["control_session"],
-    "C18": ["control_session"],
+    "C16": ["control_session", "control_two_sessions"],
+    "C17": ["control_session", "control_two_sessions"],
+    "C18": ["control_session", "control_two_sessions"],
 }
 
 
